@@ -27,6 +27,7 @@ type proc struct {
 	dead  chan struct{}
 	frags []int
 	fi    int
+	hdr   int
 }
 
 func startProc(bin string, frags []int) (*proc, error) {
@@ -118,7 +119,7 @@ func (p *proc) readFrame() ([]byte, error) {
 // exchange sends one message and collects the response (and, for updates, the
 // notification that precedes it). died=true if the process went away.
 func (p *proc) exchange(m Msg, id int) (rep reply, died bool, herr error) {
-	if err := p.write(frame(m.body(id))); err != nil {
+	if err := p.write(frameStyled(m.body(id), p.hdr+id*boolInt(p.hdr > 0))); err != nil {
 		return reply{crashed: true, panicV: "write failed: " + err.Error()}, true, nil
 	}
 	// Read until the response to this message has arrived; notifications are
@@ -198,6 +199,7 @@ func executeSubproc(c Case, keepTrace bool, bin string) Result {
 		res.HarnessErr = err.Error()
 		return res
 	}
+	p.hdr = c.Hdr
 	defer func() { p.kill() }()
 	latest := map[string]string{}
 	updates := map[string]int{}
@@ -209,6 +211,7 @@ func executeSubproc(c Case, keepTrace bool, bin string) Result {
 			return nil
 		}
 		p = np
+		p.hdr = c.Hdr
 		for _, u := range core.SortedKeys(latest) {
 			text := latest[u]
 			r2, died, herr := p.exchange(Msg{Kind: "open", URI: u, Texts: []string{text}}, 1000+i)
